@@ -150,6 +150,10 @@ pub fn corpus(extras: bool, thorough: bool) -> Vec<G> {
             extra.push(G { text: g, alphabet: "a1\u{4e2d}\u{1f600} \u{feff}".into(), class: "unicode-names" });
         }
     }
+    // built-in and Unicode property rules directly under repetitions, with implicit whitespace
+    for ws in ["WHITESPACE = _{ \" \" } ", "COMMENT = _{ \"#\" } ", ""] {
+        extra.push(G { text: format!("{ws}r = {{ LETTER* ~ EOI }} s = {{ HAN+ ~ NUMBER? }} t = @{{ NUMBER* ~ LETTER }} u = ${{ (LETTER | NUMBER)+ }} v = !{{ ASCII_DIGIT* ~ LETTER{{2}} }} w = {{ (ANY ~ LETTER)* }}"), alphabet: "a1 #\u{4e2d}".into(), class: "builtins" });
+    }
     // grammar files: the text reaches the derive byte for byte (line breaks inside literals and comments)
     for (text, alphabet) in [
         ("r = { \"a\r\nb\" ~ x? }\r\nx = { \"a\" }\r\n", "ab\r\n"),
